@@ -132,6 +132,30 @@ def nontrivial(ops):
     return sum(1 for o in ops if o[0] in ("NewRecord", "Factory", "AddAttrs", "SetTime", "AddType")) >= 3
 
 
+def fixed_programs():
+    """one call that names a single-valued formal attribute twice — as the same QualifiedName, under two spellings, with
+    different and with equal values — in new_record and in add_attributes on a record that does not hold it yet"""
+    EXU = "http://example.org/"
+    t1 = ["time", "2012", "3", "31", "9", "21", "0", "0", "none"]
+    t2 = ["time", "2012", "3", "31", "9", "22", "0", "0", "none"]
+    cases = [("Generation", "entity", ["str", "ex:e1"], ["str", "ex:e2"]),
+             ("Usage", "activity", ["qn", "ex", EXU, "a1"], ["qn", "ex", EXU, "a2"]),
+             ("Generation", "time", t1, t2), ("Activity", "startTime", t1, t2), ("Activity", "endTime", t1, ["str", "2012-03-31T09:22:00"]),
+             ("Derivation", "usedEntity", ["str", "ex:e1"], ["str", "ex:e2"]),
+             ("Association", "plan", ["str", "ex:p1"], ["str", "ex:p2"])]
+    out = []
+    for kind, a, v1, v2 in cases:
+        q = ["Q", "prov", PROVU, a]
+        sname = ["S", "prov:" + a]
+        for k2 in (q, sname):
+            for w in (v2, v1):
+                head = [["NewDoc"], ["AddNs", ["d", "0"], "ex", EXU]]
+                out.append(head + [["NewRecord", ["d", "0"], kind, ["S", "ex:r"], [[q, v1], [k2, w]]]])
+                out.append(head + [["NewRecord", ["d", "0"], kind, ["S", "ex:r"], [[["S", "ex:k"], ["int", "1"]]]],
+                                   ["AddAttrs", ["r", ["d", "0"], "0"], [[q, v1], [["S", "ex:k"], ["int", "2"]], [k2, w]]]])
+    return out
+
+
 def run(tier, seed, log, model_runs=True, enlarged=False):
     witness = [["NewDoc"], ["AddNs", ["d", "0"], "ex", "http://example.org/"],
                ["Factory", ["d", "0"], "membership", "none", [["collection", ["str", "ex:c"]], ["entity", ["str", "ex:e"]]], []],
@@ -142,6 +166,7 @@ def run(tier, seed, log, model_runs=True, enlarged=False):
                                   "Factory/AddAttrs/SetTime/AddType over all 18 kinds, every argument representation, conflicting "
                                   "and identical re-adds, typed literals with valid and invalid lexical forms); non-trivial = >=3 "
                                   "record-building calls; distinct = distinct program text; plus the fixed entry-path table",
+                        extra_cases=fixed_programs(),
                         theorem_note="C05_* over Record.add_attributes")
     n, fails = path_independence()
     res["coverage"]["entry_path_cases"] = n
